@@ -56,5 +56,12 @@ Verdict == IF i = 0 THEN [id |-> 0, sec |-> "init", v |-> "ok"]
 Emit(x) == PrintT(<<"VF", ToJson(x)>>)
 \* always TRUE; prints the verdict of every entry that fails
 CheckEntry == Verdict.v # "ok" => Emit(Verdict)
+\* Also emitted from the first state: for every reference of dimension <= 3 every chain ("tail") of
+\* at most 2 child / edge items starting there, with the affine map the model assigns to it.  These
+\* are the tails the S->C replay of SeqNesting appends to element chains; the map is the model's
+\* prediction of the remainder index_with_tail must return.
+TailRefs == {<<>>, <<1>>, <<2>>, <<3>>, <<1, 1>>, <<2, 1>>, <<1, 2>>, <<1, 1, 1>>}
+EmitTails == i = 0 => \A ref \in TailRefs : \A t \in TailsOf(ref, 2) :
+                 Emit([sec |-> "tail", ref |-> ref, t |-> t, map |-> ChainMap(t, TcSum(ref))])
 Counted == i >= 0
 =============================================================================
